@@ -22,6 +22,7 @@ import (
 // models, Wait returns when the process has exited, Kill makes it exit.
 type scriptRunner struct {
 	startDelay time.Duration // Start returns (successfully) only after this long
+	emptyID    bool          // ID() answers ""
 	x          *vs.Exec
 	dom        *vs.Domain
 	script     func(r *scriptRunner)
@@ -161,10 +162,15 @@ func (r *scriptRunner) Kill(ctx context.Context) error {
 func (r *scriptRunner) killCount() int  { r.mu.Lock(); defer r.mu.Unlock(); return r.kills }
 func (r *scriptRunner) startCount() int { r.mu.Lock(); defer r.mu.Unlock(); return r.starts }
 
-func (r *scriptRunner) Stdout() io.ReadCloser           { return r.stdoutR }
-func (r *scriptRunner) Stderr() io.ReadCloser           { return r.stderrR }
-func (r *scriptRunner) Name() string                    { return "scripted-plugin" }
-func (r *scriptRunner) ID() string                      { return "script-1" }
+func (r *scriptRunner) Stdout() io.ReadCloser { return r.stdoutR }
+func (r *scriptRunner) Stderr() io.ReadCloser { return r.stderrR }
+func (r *scriptRunner) Name() string          { return "scripted-plugin" }
+func (r *scriptRunner) ID() string {
+	if r.emptyID {
+		return "" // a runner that has no identifier for its plugin (in-process, remote, or learnt later)
+	}
+	return "script-1"
+}
 func (r *scriptRunner) Diagnose(context.Context) string { return "" }
 
 func (r *scriptRunner) PluginToHost(n, a string) (string, string, error) {
